@@ -125,7 +125,14 @@ fn crash_into(rep: &mut Report, histories: Vec<crashx::History>, bounds: crashx:
     for (h, c, c2, msg) in &st.failures {
         rep.violation(
             format!("crashx:{}", vh::report::panic_key(&msg.chars().take(90).collect::<String>())),
-            format!("history {h}, crash at log index {} keeping {:?} tear {:?}: {msg}", c.point, c.kept, c.tear),
+            format!(
+                "history {h}, crash at log index {} keeping {} of {} unsynced operations{} tear {:?}: {msg}",
+                c.point,
+                c.kept.len(),
+                c.npending,
+                if c.kept.len() <= 12 { format!(" {:?}", c.kept) } else { String::new() },
+                c.tear
+            ),
             json!({"engine": "crashx", "history": h, "candidate": c, "recovery_candidate": c2}),
         );
     }
